@@ -1,21 +1,18 @@
-"""Tables of the current source used by the C06 model (values only; the tokenizer is the trusted one of the harness)."""
+"""Tables of the current source for C06.
+
+Order: plain value tables first (the ones `CBV/Model/C06.lean` names: header and footer tokens; the tokenizer is the trusted
+one of the harness), then every translator that parses or probes the source, each in its own `emit.guard` group (they are
+named only by `CBV/Props/C06.lean`, in tie theorems against literals of the model)."""
 
 
-def emit_all(emit):
-    from classy_blocks.construct.edges import Arc
-    from classy_blocks.construct.flat.face import Face
-    from classy_blocks.construct.operations.loft import Loft
-    from classy_blocks.items.vertex import Vertex
-    from classy_blocks.lists.edge_list import EdgeList
-    from classy_blocks.util import constants
-
-    from cbv.props.c06 import tokenize
-
+def _vector_format(emit):
     # the format string of constants.vector_format, read from the source: literal pieces and
     # (component index, format spec) of every formatted value, in order
     import ast
     import inspect
     import textwrap
+
+    from classy_blocks.util import constants
 
     fn = ast.parse(textwrap.dedent(inspect.getsource(constants.vector_format))).body[0]
     rets = [n for n in ast.walk(fn) if isinstance(n, ast.Return)]
@@ -38,11 +35,16 @@ def emit_all(emit):
         "constants.vector_format (ast of the current source): ('lit', text) or (component index, format spec), in order",
     )
 
-    emit("c06Header", "List String", tokenize(constants.MESH_HEADER), "tokens of constants.MESH_HEADER")
-    emit("c06Footer", "List String", tokenize(constants.MESH_FOOTER), "tokens of constants.MESH_FOOTER")
 
+def _edge_order(emit):
     # probe: one operation with a curved edge in every storage slot; which vertex pairs
     # EdgeList.add_from_operation creates, in which order and direction
+    from classy_blocks.construct.edges import Arc
+    from classy_blocks.construct.flat.face import Face
+    from classy_blocks.construct.operations.loft import Loft
+    from classy_blocks.items.vertex import Vertex
+    from classy_blocks.lists.edge_list import EdgeList
+
     pts = [[0, 0, 0], [1, 0, 0], [1, 1, 0], [0, 1, 0], [0, 0, 1], [1, 0, 1], [1, 1, 1], [0, 1, 1]]
     bottom = Face(pts[:4], [Arc([0.5, -0.2, 0]), Arc([1.2, 0.5, 0]), Arc([0.5, 1.2, 0]), Arc([-0.2, 0.5, 0])])
     top = Face(pts[4:], [Arc([0.5, -0.2, 1]), Arc([1.2, 0.5, 1]), Arc([0.5, 1.2, 1]), Arc([-0.2, 0.5, 1])])
@@ -58,8 +60,11 @@ def emit_all(emit):
         "EdgeList.add_from_operation on a probe (vertex index = corner): vertex pairs of the created edges, in order",
     )
 
+
+def _vtk_header(emit):
     # probe: what write_vtk prints before the data set (no vertices, no blocks)
     import os
+    import shutil
     import tempfile
 
     from classy_blocks.util.vtk_writer import write_vtk
@@ -72,7 +77,19 @@ def emit_all(emit):
         write_vtk(path, [], [])
         words = open(path).read().split()
     finally:
-        import shutil
-
         shutil.rmtree(tmp, ignore_errors=True)
     emit("c06VtkHeader", "List String", words[: words.index("DATASET")], "words write_vtk prints before DATASET")
+
+
+def emit_all(emit):
+    from classy_blocks.util import constants
+
+    from cbv.props.c06 import tokenize
+
+    # plain values (named by the model)
+    emit("c06Header", "List String", tokenize(constants.MESH_HEADER), "tokens of constants.MESH_HEADER")
+    emit("c06Footer", "List String", tokenize(constants.MESH_FOOTER), "tokens of constants.MESH_FOOTER")
+    # translators of the source (named by tie theorems only)
+    emit.guard(_vector_format, emit)
+    emit.guard(_edge_order, emit)
+    emit.guard(_vtk_header, emit)
